@@ -20,7 +20,8 @@ MANIFEST_ENTRY = {
             "explicit gather with Python slice normalisation, Ellipsis expansion and the advanced-index axis-order rule): the "
             "coherence invariant (one origin/sampling/units entry per axis, class matches ndim, data length = prod shape) holds "
             "after every operation and by induction after every finite history; __getitem__ returns the gathered data with each "
-            "result axis carrying the calibration of the source axis it reads (sampling times the slice step); non-in-place "
+            "result axis carrying the calibration of the source axis it reads (sampling times the slice step), the kept axes being "
+            "exactly the non-integer axes, each once, in source order unless NumPy's advanced-index rule puts the list axis first; non-in-place "
             "operations return the receiver unchanged; the in-place variant of pad/crop/bin/fourier_resample yields the same array "
             "and calibration as the copying variant; exact error guards. Tied to the code on every run by differential execution "
             "of random and bounded-exhaustive (depth 2/3 over the op alphabet) histories, and the statement's clauses are "
